@@ -220,6 +220,9 @@ pub struct Cell
 	pub expect: Option<bool>,
 	/// Codes of which at least one must be reported when rejected (empty = any).
 	pub codes: Vec<u16>,
+	/// The operand expression that makes an ill-typed cell ill-typed, when it is a single one (used
+	/// by C13: a diagnostic with one of the cell's codes must cover it).
+	pub offender: Option<String>,
 }
 
 pub const CONTEXTS: [&str; 7] = ["straight-line code", "then branch", "else branch", "then branch of an else-if", "nested block", "looping block", "after a label"];
@@ -317,7 +320,7 @@ pub fn cells(family: &str) -> Vec<Cell>
 						let expect = binary_ok(op, lt, rt);
 						let rtype = type_text(lt);
 						let text = function(&format!("\tvar r: {rtype} = {le} {op} {re};\n"));
-						out.push(Cell { family: "binary", what: format!("{ln} {op} {rn}"), text, expect, codes: vec![550, 551, 500, 504, 507, 531, 532, 533] });
+						out.push(Cell { family: "binary", what: format!("{ln} {op} {rn}"), text, expect, codes: vec![550, 551, 500, 504, 507, 531, 532, 533], offender: None });
 					}
 				}
 			}
@@ -332,7 +335,7 @@ pub fn cells(family: &str) -> Vec<Cell>
 					{
 						let expect = comparison_ok(op, lt, rt);
 						let text = function(&format!("\tif {le} {op} {re}\n\t{{\n\t\tv_i32 = 2;\n\t}}\n"));
-						out.push(Cell { family: "comparison", what: format!("{ln} {op} {rn}"), text, expect, codes: vec![550, 551, 500, 504] });
+						out.push(Cell { family: "comparison", what: format!("{ln} {op} {rn}"), text, expect, codes: vec![550, 551, 500, 504], offender: None });
 					}
 				}
 			}
@@ -346,7 +349,7 @@ pub fn cells(family: &str) -> Vec<Cell>
 					let e2 = if e.starts_with('&') { continue } else { e };
 					let expect = unary_ok(op, t);
 					let text = function(&format!("\tvar r: {} = {op}{e2};\n", type_text(t)));
-					out.push(Cell { family: "unary", what: format!("{op} {n}"), text, expect, codes: vec![550, 500, 504] });
+					out.push(Cell { family: "unary", what: format!("{op} {n}"), text, expect, codes: vec![550, 500, 504], offender: None });
 				}
 			}
 		}
@@ -358,14 +361,14 @@ pub fn cells(family: &str) -> Vec<Cell>
 				{
 					let expect = cast_ok(t, to);
 					let text = function(&format!("\tvar r: {to} = {e} as {to};\n"));
-					out.push(Cell { family: "cast", what: format!("{n} as {to}"), text, expect, codes: vec![552, 553, 500] });
+					out.push(Cell { family: "cast", what: format!("{n} as {to}"), text, expect, codes: vec![552, 553, 500], offender: None });
 				}
 				for to in ["&i32", "[3]i32", "S", "W"]
 				{
 					let text = function(&format!("\tvar r: {to} = {e} as {to};\n"));
 					// an identity cast converts nothing: not judged
 					let expect = if type_text(t) == to { None } else { Some(false) };
-					out.push(Cell { family: "cast", what: format!("{n} as {to}"), text, expect, codes: vec![] });
+					out.push(Cell { family: "cast", what: format!("{n} as {to}"), text, expect, codes: vec![], offender: None });
 				}
 			}
 		}
@@ -444,7 +447,7 @@ pub fn cells(family: &str) -> Vec<Cell>
 							(format!("const K: {target} = {lit};\nfn f()\n{{\n}}\n"), vec![500, 504])
 						}
 					};
-					out.push(Cell { family: leak(family), what: format!("{target} <- {n}"), text, expect, codes });
+					out.push(Cell { family: leak(family), what: format!("{target} <- {n}"), text, expect, codes, offender: Some(e.to_string()) });
 				}
 			}
 		}
@@ -458,7 +461,7 @@ pub fn cells(family: &str) -> Vec<Cell>
 					let args: Vec<String> = (0..nargs).map(|_| "v_i32".to_string()).collect();
 					let text = format!("{PRELUDE}fn g({})\n{{\n}}\nfn f()\n{{\n{}\tg({});\n}}\n", params.join(", "), locals(), args.join(", "));
 					let codes = if nargs < nparams { vec![510] } else { vec![511] };
-					out.push(Cell { family: "call arity", what: format!("{nparams} parameters, {nargs} arguments"), text, expect: Some(nparams == nargs), codes });
+					out.push(Cell { family: "call arity", what: format!("{nparams} parameters, {nargs} arguments"), text, expect: Some(nparams == nargs), codes, offender: None });
 				}
 			}
 		}
@@ -473,9 +476,9 @@ pub fn cells(family: &str) -> Vec<Cell>
 				}
 				let is_array = *t == T::Array;
 				let is_structural = matches!(t, T::Struct | T::Word);
-				out.push(Cell { family: "access", what: format!("|{n}|"), text: function(&format!("\tvar r: usize = |{e}|;\n")), expect: Some(is_array), codes: vec![502] });
-				out.push(Cell { family: "access", what: format!("{n}[0]"), text: function(&format!("\tvar r: i32 = {e}[0];\n")), expect: Some(is_array), codes: vec![501] });
-				out.push(Cell { family: "access", what: format!("{n}.m"), text: function(&format!("\tvar r: i32 = {e}.m;\n")), expect: Some(is_structural), codes: vec![505, 406] });
+				out.push(Cell { family: "access", what: format!("|{n}|"), text: function(&format!("\tvar r: usize = |{e}|;\n")), expect: Some(is_array), codes: vec![502], offender: None });
+				out.push(Cell { family: "access", what: format!("{n}[0]"), text: function(&format!("\tvar r: i32 = {e}[0];\n")), expect: Some(is_array), codes: vec![501], offender: None });
+				out.push(Cell { family: "access", what: format!("{n}.m"), text: function(&format!("\tvar r: i32 = {e}.m;\n")), expect: Some(is_structural), codes: vec![505, 406], offender: None });
 			}
 		}
 		"nested call argument" =>
@@ -496,7 +499,7 @@ pub fn cells(family: &str) -> Vec<Cell>
 							"{PRELUDE}struct Pair\n{{\n\ta: i32,\n\tb: i32,\n}}\nfn h(x: {target}) -> i32\n{{\n\treturn: 1\n}}\nfn hu(x: i32) -> usize\n{{\n\treturn: 1\n}}\nfn first(v: []i32) -> i32\n{{\n\treturn: v[0]\n}}\nfn sum(q: Pair) -> i32\n{{\n\treturn: q.a\n}}\nfn k(x: i32) -> i32\n{{\n\treturn: x\n}}\nfn f() -> i32\n{{\n{}\tvar rows: [2][3]i32 = [[1, 2, 3], [4, 5, 6]];\n{stmt}\treturn: 0\n}}\n",
 							locals()
 						);
-						out.push(Cell { family: "nested call argument", what: format!("{target} <- {n} [{form}]"), text, expect: Some(same), codes: vec![512, 513, 500, 504, 503] });
+						out.push(Cell { family: "nested call argument", what: format!("{target} <- {n} [{form}]"), text, expect: Some(same), codes: vec![512, 513, 500, 504, 503], offender: Some(e.to_string()) });
 					}
 				}
 			}
@@ -724,7 +727,7 @@ fn compound_cells(family: &'static str, out: &mut Vec<Cell>)
 				"compound return" => format!("fn f() -> {tt}\n{{\n{}\treturn: {e}\n}}\n", compound_locals()),
 				_ => format!("fn f()\n{{\n{}\tvar r: {tt} = {};\n\tr = {e};\n}}\n", compound_locals(), compound_same(&t)),
 			};
-			out.push(Cell { family, what: format!("{tt} <- {n} ({why})"), text: format!("{COMPOUND_PRELUDE}{body}"), expect: Some(false), codes: codes.clone() });
+			out.push(Cell { family, what: format!("{tt} <- {n} ({why})"), text: format!("{COMPOUND_PRELUDE}{body}"), expect: Some(false), codes: codes.clone(), offender: Some(e.to_string()) });
 		}
 	}
 }
